@@ -83,11 +83,11 @@ func getIntervalValue(term ast.BaseTerm) (ast.Interval, error) {
 		if err != nil {
 			return ast.Interval{}, fmt.Errorf("invalid interval pair: %w", err)
 		}
-		startNano, err := fst.NumberValue()
+		startNano, err := intervalBoundNanos(fst)
 		if err != nil {
 			return ast.Interval{}, fmt.Errorf("invalid interval start: %w", err)
 		}
-		endNano, err := snd.NumberValue()
+		endNano, err := intervalBoundNanos(snd)
 		if err != nil {
 			return ast.Interval{}, fmt.Errorf("invalid interval end: %w", err)
 		}
@@ -98,6 +98,16 @@ func getIntervalValue(term ast.BaseTerm) (ast.Interval, error) {
 	}
 
 	return ast.Interval{}, fmt.Errorf("expected pair for interval, got %v", c.Type)
+}
+
+// intervalBoundNanos returns the nanoseconds of an interval end point, which is
+// either a time constant (what an interval annotation binds, and the declared
+// argument type) or a number of nanoseconds since the epoch.
+func intervalBoundNanos(c ast.Constant) (int64, error) {
+	if c.Type == ast.TimeType {
+		return c.TimeValue()
+	}
+	return c.NumberValue()
 }
 
 // Allen's Interval Algebra implementations
